@@ -100,6 +100,7 @@ class SessionCheck(Check):
             self.note("ev_dispatch_during_which_an_observer_unsubscribes_itself", stats.get("self_unsubscribe", 0))
             self.note("sessions_watched_by_a_residual_graph_updater", stats.get("foreign_updater", 0))
             self.note("ev_rejected_observer_construction", stats.get("rejected_construction", 0))
+            self.note("ev_deepcopy_checkpoint", stats.get("deepcopy", 0))
             if all(job[0][1] == 0 for job in case["spec"] if job):
                 self.note("inst_every_job_starts_with_zero_duration")
             self.note("ev_obs", stats["obs"])
